@@ -1134,6 +1134,10 @@ func run(c *vh.Ctx) error {
 	if h.err == nil {
 		h.vrfuStream(c.N(14, 250) * mult)
 	}
+	// the live entry point of proposer priorities (Proposal.process*Message on the Server's real verifyPriority)
+	if h.err == nil {
+		h.prioStream(c.N(6, 60) * mult)
+	}
 	// the live prover path: SortitionManager cache under adversarial query / clear orders
 	if h.err == nil {
 		h.mgrStream(c.N(60, 700) * mult)
